@@ -28,10 +28,13 @@ CHECKS = {
             "of the reference semantics (emitted_select_returns_reference_rows, emitted_payload_stands_for_reference_rows); "
             "(3) end to end - conform, compile, evaluate on a raw SQL tree, or on the tree of any construction history, returns "
             "the rows of the direct evaluation (to_executable_returns_reference_rows, sql_history_executes_to_direct_rows); "
-            "table_payload_is_faithful discharges the payload hypothesis for plain tables. Proof (partial): the end-to-end "
-            "theorems assume that the CONFORMED tree passes the decidable check Rel.structReady (no payload on a Select, function "
-            "arities, resolved joins, a DISTINCT level does not sort by a column it dropped - the one case the database leaves "
-            "unspecified) - the driver evaluates that check on every sqlexec and the evidence counts how often it held; queries "
+            "table_payload_is_faithful discharges the payload hypothesis for plain tables; the tree-building induction is "
+            "parametric in a predicate on leaves / processed markers / Selects (NodeInv: the engine never invents a leaf and the "
+            "Selects it creates are fresh), so the SEMANTIC hypothesis - payloads stand for the rows of their relations - is "
+            "stated on the INPUT tree (to_executable_returns_reference_rows_of_faithful_input). Proof (partial): what is still "
+            "asked of the CONFORMED tree is the decidable check Rel.structReady (function arities, resolved joins, a DISTINCT "
+            "level does not sort by a column it dropped - the one case the database leaves unspecified) - the driver evaluates "
+            "that check on every sqlexec and the evidence counts how often it held; queries "
             "with a duplicated FROM name are excluded (outside the model); the list semantics of SQL itself and SQLite's "
             "acceptance of the query are modelled and validated by running every generated query on SQLite under both scan "
             "orders, not proved. " + CORR, "", "DESIGN.md 5/C02"),
@@ -64,7 +67,16 @@ CHECKS = {
             "Machine-checked: columns and [min_rows,max_rows] are truthful for every well-formed tree over truthful "
             "leaves (all operations incl. join/chain), hence join-identity/trivial flags and the short-cuts keyed on "
             "them. " + CORR, "", "DESIGN.md 5/C06"),
-    "C07": (TV, "Lean model + correspondence (proofs in progress)", CORR, "", "DESIGN.md 5/C07"),
+    "C07": (TV, "Lean model of Processor.process (hooks instantiated as the harness instantiates them) + correspondence + oracle on every generated multi-engine program; supporting theorems about _process_recursive",
+            CORR + "Supporting machine-checked theorems (Props/C07.lean) about the model's _process_recursive: a relation that "
+            "already holds a payload is returned as it is - no hook, nothing attached, no state change - at any recursion "
+            "budget and for any materialize_as (processed_relation_is_left_alone, reprocessing_calls_no_hook); a tree all of "
+            "whose leaves and markers hold payloads, through any nesting of unary and binary operations, is returned as the "
+            "SAME object with no hook call and no state change (fully_processed_tree_is_returned_unchanged: processing is "
+            "idempotent on processed trees, no operation node is rebuilt); a Transfer that is statically a join identity or "
+            "statically empty gets the engine's trivial payload on a NEW Transfer node, the hook log unchanged "
+            "(trivial_transfer_calls_no_hook). The end-to-end statement (rows of the processed tree = direct evaluation) is "
+            "checked by the oracle on every generated program, not proved.", "", "DESIGN.md 5/C07"),
     "C08": (PR, "Lean 4 theorems: every accepted iteration-engine history executes; compile_total (the SQL engine's _select_to_executable / to_payload never fail on the trees the engine builds - mutual induction, composed with the tree-building induction of C17 whose invariant carries the compilable shape) + correspondence incl. execution of every generated query on SQLite",
             "Machine-checked (Props/C08.lean): every accepted iteration-engine history executes and iterates without any "
             "error; _finish_apply raises nothing but the documented EngineError; in the SQL engine, for every tree satisfying "
@@ -76,7 +88,9 @@ CHECKS = {
             "every raw SQL tree and on the tree of every construction history inside one SQL engine - any number of unary "
             "operations, chains, joins, materializations (conformed_tree_compiles, accepted_sql_history_compiles). Proof "
             "(partial): that the DATABASE accepts the emitted SELECT is modelled (Query.accepts) and validated against SQLite "
-            "on every generated query, not proved; the payload hypothesis (Rel.PayReady) is stated on the conformed tree; "
+            "on every generated query, not proved; the payload hypothesis is stated on the INPUT tree "
+            "(conformed_tree_compiles_of_ready_input: leaves and markers of the raw tree hold payloads exposing their columns), "
+            "the conformed tree only has to pass the decidable check that its joins are resolved; "
             "multi-engine trees (Processor) are validated only. " + CORR, "", "DESIGN.md 5/C08"),
     "C09": (PR, "Lean 4 theorem over the regenerated dataclass schema + fingerprint monitoring of every pool relation",
             "Machine-checked over the schema re-read from the live classes each run: every relation/operation/"
@@ -99,8 +113,9 @@ CHECKS = {
             "a coherent Select returns, under the list semantics of SQL, the skip target's rows stably sorted by the recorded "
             "terms, projected, deduplicated and THEN cut to the recorded window (emitted_select_honours_sort_and_slice); sort "
             "then slice through the factories, conform, compile, evaluate returns rows [start, stop) of the stably sorted rows "
-            "in that order (sorted_slice_executes_in_order). Proof (partial): as for C02 the end-to-end statement assumes the "
-            "decidable check Rel.structReady on the conformed tree and faithful payloads; that the database honours ORDER BY / "
+            "in that order (sorted_slice_executes_in_order; ..._of_faithful_input with the payload hypothesis on the input "
+            "tree). Proof (partial): as for C02 the end-to-end statement assumes the decidable check Rel.structReady on the "
+            "conformed tree; that the database honours ORDER BY / "
             "OFFSET / LIMIT as the list semantics says is modelled and validated on SQLite under both scan orders, not proved. "
             + CORR, "", "DESIGN.md 5/C11"),
     "C12": (PR, "Lean 4 theorems: iteration callable = direct value; SQL translation = direct value (incl. range arithmetic for all start/stop/step) + correspondence incl. evaluation by SQLite",
